@@ -216,4 +216,44 @@ def chunkBase (s : TState) (k : Nat) : Nat :=
 def chunkCapacity (s : TState) (k : Nat) : Nat :=
   (s.chunks.getD (s.chunks.length - 1 - k) ⟨0, 0, 0⟩).capacity
 
+/-! ## population bookkeeping of the storage (`reserve`, `emplace`, `decrSize`, `clear`)
+
+```
+void reserve(size_t n)  { while (chunk_size_ > 0u && capacity() < n) allocateChunk(); }   // capacity() = cap * chunks_.size()
+void emplace(index pos) { reserve(pos + 1); if (size_ < pos + 1) size_ = pos + 1; }
+void decrSize()         { --size_; }
+void clear(bool free)   { if (free) { free every chunk; chunks_.clear(); } size_ = 0; }
+``` -/
+
+structure Store where
+  cap : Nat
+  chunkSize : Nat
+  nchunks : Nat
+  size : Nat
+deriving Repr, DecidableEq
+
+/-- the `while` loop of `reserve`, at most `fuel` iterations -/
+def reserveFuel : Nat → Store → Nat → Store
+  | 0, s, _ => s
+  | f + 1, s, n =>
+    if s.chunkSize > 0 ∧ s.cap * s.nchunks < n then reserveFuel f { s with nchunks := s.nchunks + 1 } n else s
+
+/-- `reserve(n)`: `n` iterations are enough whenever the capacity is positive -/
+def Store.reserve (s : Store) (n : Nat) : Store := reserveFuel n s n
+
+inductive SOp where
+  | emplace (pos : Nat)
+  | decr
+  | clear (free : Bool)
+deriving Repr, DecidableEq
+
+def Store.step (s : Store) : SOp → Store
+  | .emplace pos =>
+    let s1 := s.reserve (pos + 1)
+    { s1 with size := if s1.size < pos + 1 then pos + 1 else s1.size }
+  | .decr => { s with size := s.size - 1 }
+  | .clear free => { s with size := 0, nchunks := if free then 0 else s.nchunks }
+
+def Store.run (s : Store) (ops : List SOp) : Store := ops.foldl Store.step s
+
 end Mustache.Model.Layout
